@@ -318,6 +318,7 @@ def run(chk):
     chk.expect_count("C04.length", n_cap, 7, "writer.write calls in write_with_length implementations")
     bodiless(chk, repo)
     ioloop(chk, repo)
+    hunt2_rules(chk, repo)
     from rules import C19 as _C19
 
     _C19.textsize(chk, repo, "C04.length")
@@ -431,3 +432,43 @@ def ioloop(chk, repo, rule="C04.ioloop"):
                 else:
                     chk.ok(rule, x, f"{cls.name}.write_with_length: the read loop is left early only when the known size was written or the declared length is used up ({'; '.join(atoms)[:120]})")
     chk.expect_count(rule, n, 1, "early exits of file read loops in write_with_length implementations")
+
+
+def hunt2_rules(chk, repo):
+    """Rules written after the second defect hunt (F125-F129)."""
+    from rules import C11
+    sw = repo.cls(HW, "StreamWriter")
+    # ---- C04.bytelen: both body entry points of the writer count bytes (shared helper with C11) --------------------------------------------
+    for m in ("write", "write_eof"):
+        C11.bytelen(chk, repo, sw.methods[m], "chunk", "C04.bytelen")
+    # ---- C04.length: write_eof(data) is bound by the declared length like write(data) ---------------------------------------------------------
+    we = sw.methods["write_eof"]
+    cut = [a for a in ast.walk(we.node) if isinstance(a, ast.Assign) and norm.raw(a.targets[0]) == "chunk" and isinstance(a.value, ast.Subscript) and "self.length" in norm.raw(a.value.slice)]
+    dec = [a for a in ast.walk(we.node) if isinstance(a, ast.AugAssign) and norm.raw(a.target) == "self.length" and isinstance(a.op, ast.Sub)]
+    if cut and dec:
+        chk.ok("C04.length", cut[0], "write_eof(data): the final chunk is truncated to the remaining declared length and accounted for")
+    else:
+        chk.violation("C04.length", we, "write_eof(chunk)", "chunk = chunk[: self.length]; self.length -= len(chunk)",
+                      "write_eof(data) ignores the declared length that write(data) enforces: with content_length = 10, write_eof(<50 bytes>) - or web.Response(body=<bytes>, headers={'Content-Length': '10'}), e.g. an inflated body forwarded with the upstream's headers - puts 40 surplus bytes on a keep-alive connection, which the peer reads as the next response")
+    # ---- C04.te.server: a handler-supplied `Transfer-Encoding: chunked` selects chunked framing (sibling of the client rule C02.chunkpair) -----
+    ph = repo.func(WRESP, "StreamResponse._prepare_headers")
+    sets = [a for a in ast.walk(ph.node) if isinstance(a, ast.Assign) and norm.raw(a) == "self._chunked = True" and any("TRANSFER_ENCODING" in l.text for c in PC.pc(a, raw=True) for l in c)]
+    if sets and any("CONTENT_LENGTH" in norm.raw(x) and ("pop" in norm.raw(x) or isinstance(x, ast.Delete)) for x in (PC._block_of(sets[0]) or [])):
+        chk.ok("C04.te.server", sets[0], "a handler-supplied `Transfer-Encoding: chunked` header switches the response to chunked framing and removes Content-Length")
+    else:
+        chk.violation("C04.te.server", ph, "headers[hdrs.TRANSFER_ENCODING]", "if 'chunked' in headers.get(TRANSFER_ENCODING): self._chunked = True; drop Content-Length",
+                      "web.Response(body=b'hello', headers={'Transfer-Encoding': 'chunked'}) - a proxy handler forwarding upstream headers - emits `Transfer-Encoding: chunked` plus an aiohttp-added `Content-Length: 5` and the raw body: aiohttp's own client rejects the message, others disagree about its end")
+    # ---- C04.zerosize: a known size of 0 is not `unknown` -----------------------------------------------------------------------------------------
+    nz = 0
+    for cname in ("IOBasePayload", "TextIOPayload"):
+        m = repo.cls(PL, cname).methods.get("_read_and_available_len")
+        if m is None:
+            continue
+        nz += 1
+        falsy = [b for b in ast.walk(m.node) if isinstance(b, ast.BoolOp) and isinstance(b.op, ast.Or) and isinstance(b.values[0], ast.Name) and b.values[0].id == "size"]
+        if falsy:
+            chk.violation("C04.zerosize", falsy[0], norm.raw(falsy[0]), "DEFAULT_CHUNK_SIZE if size is None else size",
+                          f"{cname}._read_and_available_len treats a reported size of 0 like an unknown size and reads a full block: a file whose fstat size is 0 but that has content (procfs, some devices) is written in full under `Content-Length: 0` / a multipart size that counts 0 bytes for it")
+        else:
+            chk.ok("C04.zerosize", m, f"{cname}: the first read is capped by the reported size, 0 included")
+    chk.expect_count("C04.zerosize", nz, 2, "first-read helpers of file payloads")
